@@ -365,7 +365,13 @@ Definition text_pass_rotated (test : bytes -> bool) (q : tquery) : bool :=
   else if tq_wild_col q then bloom_pass_allcol test (tq_keys q) (tq_op q)
   else bloom_pass_forcol test (tq_keys q) (tq_op q).
 
-(* DoCMICheckForUnrotated, non-range branch: only the wildcard value bypasses *)
+(* DoCMICheckForUnrotated, non-range branch: NOT and wildcard values bypass the bloom, as on rotated segments *)
 Definition text_pass_unrotated (test : bytes -> bool) (q : tquery) : bool :=
+  if tq_wild_value q || tq_negate q then true
+  else bloom_pass_allcol test (tq_keys q) (tq_op q).
+
+(* PRE-FIX (before "fix: do not prune blocks of open segments with the bloom for a negated match"):
+   only the wildcard value bypassed *)
+Definition text_pass_unrotated_prefix (test : bytes -> bool) (q : tquery) : bool :=
   if tq_wild_value q then true
   else bloom_pass_allcol test (tq_keys q) (tq_op q).
